@@ -10,6 +10,7 @@ REQUIRED = ['sync_is_first_step', 'starttls_row', 'ssl_only_by_handshake', 'look
             'starttls_refused_without_esmtp', 'offer_iff_certificate', 'failed_handshake_inert', 'no_tls_without_handshake']
 
 CORR = {
+    'cert': 'model QsmtpModel.StartTlsCert.findServercert vs qsmtpd/starttls.c:find_servercert (through EHLO/STARTTLS of the whole server: announcement, memory faults, certificate presented)',
     'script': 'model QsmtpModel.StartTlsSrv.run vs the whole server (harness/h_qsmtpd.c, scripted client): smtploop + tls_init + sync_pipelining/hasinput/wait_for_quit + data_pending',
     'tls': 'model QsmtpModel.StartTlsSrv.run vs the whole server over a socketpair with a Python TLS peer (H_REALIO=2)',
 }
@@ -237,6 +238,72 @@ def gen_tls(ctx):
     return cases
 
 
+LONG6 = '2001:db8:85a3:8d3:1319:8a2e:370:7348'
+FULL6 = '2001:0db8:0000:0000:0000:0000:0000:0001'
+
+
+def gen_cert(ctx):
+    """which certificate file: addresses (IPv4-mapped, short and long IPv6 text), ports, subsets of the three
+    names, key files, decoys; one to four EHLOs before STARTTLS (the buffers keep what a call leaves)"""
+    rng, quick = ctx.rng, ctx.quick()
+    cases = []
+
+    def add(c, tag):
+        c.tag = tag
+        cases.append(c); ctx.count('cert:' + tag)
+    for ip in ('::ffff:192.0.2.1', '2001:db8::1', LONG6, FULL6):
+        for port in ('25', '10025', None, '465'):
+            c0 = Case('script', cert='files', port=port, localip=ip, files={})
+            names = W.cert_names(c0)
+            subsets = [[], [names[-1]], [names[0]], names[:], [names[-2]], [names[-2], names[-1]]]
+            for sub in subsets:
+                for nehlo in (1, 2, 3):
+                    if quick and rng.random() < 0.45:
+                        continue
+                    files = {n: 'cert+key' for n in sub}
+                    r = rng.random()
+                    if sub and r < 0.25:
+                        # separate key file for the name that will be chosen
+                        key = 'serverkey.pem' + sub[0][len('servercert.pem'):]
+                        files[sub[0]] = 'cert'
+                        files[key] = 'key' if rng.random() < 0.6 else 'wrongkey'
+                    elif sub and r < 0.4:
+                        # a key file for a name that is not the chosen one, and decoys the stale suffix would hit
+                        files['serverkey.pem'] = 'wrongkey' if sub[0] != 'servercert.pem' else 'key'
+                        if sub[0] == 'servercert.pem':
+                            files['servercert.pem'] = 'cert'
+                    if rng.random() < 0.3:
+                        lip = W.local_ip_text(c0)
+                        files['servercert.pem.%s.%s' % (lip, lip)] = 'cert+key'
+                    if rng.random() < 0.5:
+                        add(Case('script', cert='files', port=port, localip=ip, files=files,
+                                 clear=[WT] + lock([EHLO] * nehlo + [STLS]) + lock([NOTTLS, QUIT]), hs=['g'] * 2, clean=False), 'script')
+                    else:
+                        add(Case('tls', cert='files', port=port, localip=ip, files=files,
+                                 clear=[WT] + lock([EHLO] * nehlo + [STLS]) + lock([QUIT]), hs=['o'], tls=lock([NOOP, QUIT])), 'tls')
+    return cases
+
+
+def compare_cert(case, offers, fault, peer_cn, handshake_ok, mout):
+    """the find_servercert() model against what the session showed"""
+    toks = mout.split()
+    mfault = 'FAULT' in toks
+    if mfault != bool(fault):
+        return 'find_servercert: memory fault impl=%s model=%s' % (bool(fault), mfault)
+    if mfault:
+        return None
+    founds = [t.split(':')[0] == '1' for t in toks]
+    if case.port != '465' and founds != offers[:len(founds)]:
+        return 'find_servercert: announced impl=%s model=%s' % (offers, founds)
+    if handshake_ok and toks:
+        name = bytes.fromhex(toks[-1].split(':')[1]).decode('latin1')[len('control/'):]
+        want = W.cert_kind_of(case, name)
+        want = {'general': 'mx.local.example'}.get(want, want)
+        if peer_cn != want:
+            return 'find_servercert: certificate presented impl=%s model=%s (%s)' % (peer_cn, want, name)
+    return None
+
+
 # ------------------------------------------------------------------------------------------------
 # comparison
 
@@ -324,6 +391,21 @@ def compare_tls(case, r, evs):
     return None
 
 
+def nehlo(case):
+    """EHLO lines given in clear text (each one calls find_servercert() unless the port is 465)"""
+    return sum(1 for it in case.clear if it[0] == 'S' and it[1].upper().startswith(b'EHLO '))
+
+
+def cert_model(ctx, cases):
+    idx = [i for i, c in enumerate(cases) if c.cert == 'files']
+    out = [None] * len(cases)
+    if idx and ctx.driver:
+        res = vlib.run_batch(ctx.driver, [W.servercert_line(cases[i], 0 if cases[i].port == '465' else nehlo(cases[i])) for i in idx])
+        for i, r in zip(idx, res):
+            out[i] = r
+    return out
+
+
 def run_cases(ctx, binary, pki, cases):
     """-> list of (case string, observation string, disagreement or None, predicate answer)"""
     scr = [c for c in cases if c.mode == 'script']
@@ -334,14 +416,24 @@ def run_cases(ctx, binary, pki, cases):
         mo = vlib.run_batch(ctx.driver, [W.model_line(c) for c in scr]) if ctx.driver else [''] * len(scr)
         obs = [W.observe_script(c, r) for c, r in zip(scr, res)]
         po = vlib.run_batch(ctx.driver, ['chk_stls ' + ' '.join(o['obs']) for o in obs]) if ctx.driver else ['holds'] * len(scr)
-        for c, o, m, p in zip(scr, obs, mo, po):
-            out.append((c, 'replies=%s exit=%s' % ([g['code'] for g in o['groups']], o['exit']), compare_script(c, o, W.parse_model(m)), p))
+        cm = cert_model(ctx, scr)
+        for c, o, m, p, cmo in zip(scr, obs, mo, po, cm):
+            d = compare_script(c, o, W.parse_model(m))
+            if d is None and cmo is not None:
+                offers = [g['offer'] for g in o['groups'][1:] if g['code'] == '250'][:nehlo(c)]
+                d = compare_cert(c, offers, o['fault'], None, False, cmo)
+            out.append((c, 'replies=%s exit=%s%s' % ([g['code'] for g in o['groups']], o['exit'], ' FAULT' if o['fault'] else ''), d, p))
     if tls:
         res = W.run_tls_sessions(ctx, binary, pki, tls)
         mo = vlib.run_batch(ctx.driver, [W.model_line(c) for c in tls]) if ctx.driver else [''] * len(tls)
         po = vlib.run_batch(ctx.driver, ['chk_stls ' + ' '.join(r['obs']) for r in res]) if ctx.driver else ['holds'] * len(tls)
-        for c, r, m, p in zip(tls, res, mo, po):
-            out.append((c, 'replies=%s exit=%s' % (r['replies'], r['exit']), compare_tls(c, r, W.parse_model(m)), p))
+        cm = cert_model(ctx, tls)
+        for c, r, m, p, cmo in zip(tls, res, mo, po, cm):
+            d = compare_tls(c, r, W.parse_model(m))
+            if d is None and cmo is not None:
+                offers = [bool(off) for ch, code, off in r['replies'][1:] if ch == 'c' and code == '250'][:nehlo(c)]
+                d = compare_cert(c, offers, r['fault'], r['peer_cn'], any(ch == 't' for ch, _, _ in r['replies']), cmo)
+            out.append((c, 'replies=%s exit=%s cn=%s%s' % (r['replies'], r['exit'], r['peer_cn'], ' FAULT' if r['fault'] else ''), d, p))
     return out
 
 
@@ -394,6 +486,7 @@ def run(ctx):
         job(ctx, 'tls:corpus', binary, pki, [c for c in corp if c.mode == 'tls'])
         job(ctx, 'script', binary, pki, gen_script(ctx))
         job(ctx, 'tls', binary, pki, gen_tls(ctx))
+        job(ctx, 'cert', binary, pki, gen_cert(ctx))
     if not ctx.quick():
         vlib.leanchecker(ctx, ['QsmtpModel.Props.C17', 'QsmtpModel.Lemmas.StartTlsSrv'])
     return vlib.finish(ctx, assumptions=[
